@@ -11,4 +11,4 @@ for p in "$@"; do
   echo "$out" | grep -E '^  (violation|detail)' | head -4
 done
 git -C /repo checkout -- . 
-rm -f /verif/replays/*.json
+find /verif/replays -name "*.json" -delete
